@@ -20,6 +20,9 @@ def pitch(n, o):
 def note_tr(nm, o, sh, up):
     n = Note(nm, o); n.transpose(sh, up)
     return [n.name, n.octave, n.channel, n.velocity]
+def note_tr_dyn(nm, o, sh, up, ch, vel):
+    n = Note(nm, o, channel=ch, velocity=vel); n.transpose(sh, up)
+    return [n.name, n.octave, n.channel, n.velocity]
 def updown(nm, o, sh):
     n = Note(nm, o); n.transpose(sh, True); n.transpose(sh, False)
     return [n.name, n.octave]
@@ -34,13 +37,14 @@ from harness.c12 import run as nc_run
 IMPL = {
     "note.transpose": note_tr,
     "note.updown": updown,
+    "note.transpose_dyn": note_tr_dyn,
     "note.augdim": augdim,
     "note.change_octave": change_octave,
     "nc.run": nc_run,
     "bar.run": machines.run_bar,
     "track.run": machines.run_track,
 }
-NO_MODEL = {"note.updown", "note.augdim"}
+NO_MODEL = {"note.updown", "note.augdim", "note.transpose_dyn"}
 def has_model(c):
     return c["fn"] not in NO_MODEL
 
@@ -66,6 +70,13 @@ def cases(tier, rng):
             for sh in SHORTHANDS:
                 for up in (True, False):
                     yield Case("note.transpose", [x, o, sh, up], "note/" + ("up" if up else "down"), kind=("note",))
+    # the same for notes that sound on another channel, at another velocity: the pitch moves as before, the dynamics stay
+    for x in ("C", "D", "F#", "Bb", "E", "Cb", "B#"):
+        for o in (0, 4, 7):
+            for sh in SHORTHANDS:
+                for up in (True, False):
+                    for ch, vel in ((2, 64), (9, 100), (15, 1)):
+                        yield Case("note.transpose_dyn", [x, o, sh, up, ch, vel], "note/other-channel", model=False, kind=("notedyn",))
     for x in canon_names(2):
         for o in (1, 4, 7):
             for sh in SHORTHANDS:
@@ -197,6 +208,8 @@ def oracle(c, obs):
         return "raised %s" % obs.name
     if kind == "note":
         return check_note([a[0], a[1]], obs, ["transpose", a[2], a[3]]) or (None if obs[2:] == [1, 64] else "dynamics changed")
+    if kind == "notedyn":
+        return check_note([a[0], a[1]], obs, ["transpose", a[2], a[3]]) or (None if obs[2:] == [a[4], a[5]] else "dynamics changed")
     if kind == "updown":
         _, _, size = spec_transpose(a[0], a[1], a[2], True)
         if not 0 <= size <= 11:
